@@ -686,6 +686,35 @@ class R:
             g.emit("wf64 %s" % y)
             g.emit("card64 %s" % y)
             g.count("paror64:chunking")
+        # fixed: a later operand brings buckets that fall BETWEEN and BELOW the buckets of the union so far, inside one worker's share
+        for keysets in ([[5, 9], [3, 7, 9], [1, 7, 11]], [[5, 9, 300], [3, 7, 9, 100, 299], [4, 6, 8, 10, 298, 301]], [[2], [1, 3], [0, 2, 4]]):
+            names = []
+            for ks in keysets:
+                x = g.fresh("g")
+                g.emit("of64 %s %s" % (x, " ".join(str((k << 32) | (k % 7)) for k in ks)))
+                names.append(x)
+            for w in (1, 2, 0, 75):
+                y = g.fresh("y")
+                g.emit("paror64 %s %d %s" % (y, w, " ".join(names)))
+                g.emit("wf64 %s" % y)
+                g.emit("toarr64 %s" % y)
+            g.count("paror64:fixed-interior-buckets")
+        # fixed: several ParOr calls at the same time over shared operands whose FIRST member once held more buckets than it does now
+        # (trimmed by a range removal / refilled after Clear): everything in one bucket, and spread over buckets
+        for spread in (False, True):
+            base = g.fresh("g")
+            g.emit("of64 %s %s" % (base, " ".join(str((k << 32) | 5) for k in range(0, 9))))
+            g.emit("remr64 %s %d %d" % (base, 1 << 32, 10 << 32))
+            g.emit("addmany64 %s 1 2 3 70000" % base)
+            others = []
+            for j in range(5):
+                x = g.fresh("g")
+                g.emit("of64 %s %s" % (x, " ".join(str(((j + 1 if spread else 0) << 32) | (1000 * (j + 1) + i)) for i in range(3))))
+                others.append(x)
+            for w in (2, 0):
+                g.emit("concagg64 %d %d %s %s" % (8, w, base, " ".join(others)))
+            g.emit("wf64 %s" % base)
+            g.count("paror64:fixed-concurrent-shared-first")
         # as64
         for _ in range(max(2, n // 3)):
             x = g.fresh("w")
